@@ -814,7 +814,7 @@ class JALR(ITypeInstruction):
     ) -> tuple[bool | None, int | None]:
         assert alu_in_1 is not None
         assert alu_in_2 is not None
-        return None, ((alu_in_1 + alu_in_2) & (~1))
+        return None, ((alu_in_1 + alu_in_2) & (pow(2, 32) - 2))
 
 
 class ECALL(ITypeInstruction):
